@@ -354,6 +354,10 @@ def parse_eflr(body):
                 if d & 0x10:
                     raise StrictError('object-attr-label', f'object {ob}: attribute component carries a label')
                 a, pos = _parse_attr_component(body, pos + 1, d, e.template[k])
+                if not a.has_value and a.count != 0:
+                    raise StrictError('attr-count-without-value',
+                                      f'object {ob}: attribute {a.label} announces count {a.count} and carries no value '
+                                      f'(a value that is not there must be marked absent)')
             attrs.append(a)
             k += 1
         while k < len(e.template):
